@@ -47,6 +47,37 @@ CHECKS["C04"] = dict(
     note="trusts GoMachine's transcription of the spec and the Python lowering to its jump code, both self-validated against the reference toolchain on every case; O2 = reduced pipeline O2*",
     design="5 C04")
 
+CHECKS["C01"] = dict(
+    engine="tlc-gomachine+llgo",
+    technique="TLA+ abstract machine for core Go (GoMachine) interpreted by TLC predicts output and termination of seeded programs; llgo-compiled programs at O0 and O2* must match; reference toolchain self-validates the machine",
+    text="Programs from a typed grammar over the core language (branches, labelled loops, switch/fallthrough, closures incl. per-iteration loop variables, "
+         "structs/embedding/methods/method values/interfaces, arrays, pointers, tuple assignment, multiple results, every integer-range and array-range form) "
+         "are executed by the TLA+ machine and by llgo-compiled code in each configuration; printed lines and termination must agree.",
+    note="the grammar is a subset of Go (no generics, range-over-func, floats); the machine and the Python lowering are self-validated against the reference toolchain on every case; O2 = reduced pipeline O2*; package split not exercised yet",
+    design="5 C01")
+CHECKS["C03"] = dict(
+    engine="tlc-tables+gomachine+llgo",
+    technique="TLA+ tables (Bounds: in-range predicate and result window per kind/form/index type; Panics: mandated panic per operation and operand state, repeated occurrences) enumerated by TLC and replayed into an llgo-compiled evaluator; GoMachine for the position of the panic",
+    text="TLC enumerates ~59k (kind, form, index type, len, cap, i, j, k) tuples and ~80 operation/operand-state cases with the verdict Go mandates; a generated "
+         "evaluator (one non-inlined function per kind x form x index type, plus literal-index variants for the constant-folded checks) compiled by llgo must agree, "
+         "each panic case three times in one goroutine; programs of the faults profile check that the panic is raised at exactly the faulting statement.",
+    note="panic kinds (not texts) are compared; Big/Huge/Min stand for extreme index values instantiated per type; reference toolchain self-validates the tables",
+    design="5 C03")
+CHECKS["C02"] = dict(
+    engine="tlc-tables+llgo",
+    technique="TLA+ operator semantics (IntOps on integers, BV limb arithmetic model-checked against it, FloatExact) evaluated by TLC into expected tables; an llgo-compiled evaluator with one non-inlined function per operator x type must reproduce them",
+    text="Exhaustive 8-bit operand pairs, boundary cross products at 16/32/64 bit, shift counts of every type, all 12x12 conversions, exact floats and specials; "
+         "results computed by TLC from the TLA+ definitions and compared with the llgo-compiled evaluator (run-time and constant operands).",
+    note="rounding of inexact float results and complex division are outside the specification (stated limit); BV is justified by model-checking it against IntOps at 8/16 bit",
+    design="5 C02")
+CHECKS["C17"] = dict(
+    engine="tlc-automata+injected-tests",
+    technique="TLA+ automata/laws (ShellSplit, PkgConfigSplit, TagExpr, Expand) enumerated exhaustively by TLC with expected results; replayed into the real package functions through injected tests",
+    text="Every string over a 9-symbol alphabet up to the bound and every small argument list (round trip), every build expression over 3 tags, every template of <=4 segments: "
+         "TLC computes the expected token lists / verdicts / expansions and the real shellparse, safesplit, buildtags, env functions must return them; order-independence of expansion is run 32x per case.",
+    note="documented dialects transcribed from doc comments; where the documentation is silent both POSIX and literal readings are accepted; -X parsing in internal/build not covered",
+    design="5 C17")
+
 NOT_YET = {}
 
 props = [json.loads(l) for l in open(os.path.join(V, "properties.jsonl"))]
